@@ -7,6 +7,7 @@ import (
 
 	pb "github.com/libp2p/go-libp2p-pubsub/pb"
 	"github.com/libp2p/go-libp2p/core/network"
+	"github.com/libp2p/go-libp2p/core/peer"
 )
 
 // ---- C13: all state attributable to a peer is reclaimed after it disconnects ----------------------------
@@ -37,6 +38,12 @@ func vpH_C13_teardown_gs() {
 	}
 	if w.mesh[0] {
 		gs.tagTracer.Graft(x, vpT0) // the protection a mesh member carries
+	}
+	if vpBool("ip_tracked") { // IP colocation bookkeeping of the peer
+		if st, ok := gs.score.peerStats[x]; ok {
+			st.ips = []string{"1.2.3.4"}
+			gs.score.peerIPs["1.2.3.4"] = map[peer.ID]struct{}{x: {}}
+		}
 	}
 	inboundFirst := vpBool("inbound_closes_first")
 	lateGraft := vpBool("late_graft_on_surviving_inbound_stream")
@@ -97,6 +104,8 @@ func vpH_C13_teardown_gs() {
 	vpAssert(!j && !k, "no extension-handshake state is kept for a departed peer")
 	_, l := gs.score.peerStats[x]
 	vpAssert(!l, "scoring statistics of a departed peer are dropped after the retention period")
+	_, ipl := gs.score.peerIPs["1.2.3.4"][x]
+	vpAssert(!ipl, "the IP-colocation bookkeeping of a departed peer is dropped with its statistics")
 	vpAssert(!w.n.h.cm.IsProtected(x, ""), "no connection-manager protection installed by pubsub survives the peer's departure")
 	vpCover(w.mesh[0] && !inboundFirst && lateGraft, "mesh member, late GRAFT on the surviving inbound stream")
 	vpCover(inboundFirst && w.proto[0] == 3, "v1.2 peer, inbound closes first")
